@@ -41,6 +41,7 @@ GStep0(st, e) ==
      IF e.res = "ok" THEN
         IF e.id \in st.autos /\ e.flag THEN [st EXCEPT !.bad = "C20.automatic-id-allocated-twice"]
         ELSE [st EXCEPT !.autos = IF e.flag THEN @ \cup {e.id} ELSE @, !.made = @ + 1]
+     ELSE IF e.flag /\ e.id \in st.autos THEN [st EXCEPT !.bad = "C20.automatic-id-allocated-twice"]
      ELSE IF e.mine THEN
         IF e.res = "AssertionError" /\ e.thread \in st.overlapped THEN [st EXCEPT !.bad = "C05.concurrent-id-collision-leaves-a-process-behind"]
         ELSE [st EXCEPT !.bad = "C05.failed-makegateway-left-a-process-behind"]
